@@ -247,6 +247,21 @@ class Env:
         if z3.is_true(phi_s):
             c.stats.add("unsat", 0.0)
             return "unsat", None
+        if getattr(self, "fresh_solver", False):
+            # opt-in (E.fresh_solver = True): one-shot solver instead of push/pop on the path solver.  z3 then runs its
+            # non-incremental strategy (nlsat), which decides rational-function identities the incremental core gives up on.
+            s = z3.Solver()
+            fs = list(c.solver.assertions()) + list(self._assumptions(groups)) + list(extra) + [z3.Not(phi)]
+            if getattr(self, "div_elim", False) and c.assume_defined:
+                # opt-in (E.div_elim = True, with fresh_solver): p/q -> p*inv_q with q*inv_q == 1 (see div_elim below)
+                fs = div_elim(fs)
+            for f in fs:
+                s.add(f)
+            r = c._check(s, timeout_ms=timeout_ms or self.q_timeout_ms)
+            m = s.model() if r == "sat" else None
+            if r == "unknown" and os.environ.get("VT_DEBUG_UNKNOWN"):
+                print("UNKNOWN:", s.reason_unknown(), flush=True)
+            return r, m
         s = c.solver
         s.push()
         try:
@@ -360,6 +375,51 @@ class Env:
         return verdict == "proved"
 
 
+def div_elim(fs):
+    """Rewrite every quotient p/(q1*...*qk) with symbolic q's into p*inv_q1*...*inv_qk, adding qi*inv_qi == 1 for
+    fresh inv_qi.  Equisatisfiable on the region where every divisor is non-zero (the side constraints exclude
+    the rest), i.e. exactly under the definedness assumption the obligations are stated for; the result is
+    division-free, so quotient identities become polynomial identities for nlsat."""
+    cache = {}
+    inv = {}
+    side = []
+
+    def split(u, facs):
+        if z3.is_app(u) and u.decl().kind() == z3.Z3_OP_MUL:
+            for ch in u.children():
+                split(ch, facs)
+        else:
+            facs.append(u)
+
+    def walk(t):
+        k = t.get_id()
+        if k in cache:
+            return cache[k]
+        r = t
+        if z3.is_app(t) and t.num_args() > 0:
+            ch = [walk(x) for x in t.children()]
+            if t.decl().kind() == z3.Z3_OP_DIV and not z3.is_rational_value(ch[1]):
+                facs = []
+                split(ch[1], facs)
+                r = ch[0]
+                for f in facs:
+                    if z3.is_rational_value(f):
+                        r = r / f
+                        continue
+                    fid = f.get_id()
+                    if fid not in inv:
+                        v = z3.Real(f"inv!{len(inv)}")
+                        inv[fid] = (v, f)
+                        side.append(f * v == 1)
+                    r = r * inv[fid][0]
+            else:
+                r = t.decl()(*ch)
+        cache[k] = r
+        return r
+
+    return [walk(f) for f in fs] + side
+
+
 # ---------------------------------------------------------------------- replay files
 def write_replay(pid, cfg_key, obligation, vals, exact=None):
     d = os.path.join(REPLAY_DIR, pid)
@@ -382,4 +442,6 @@ def run_replay(pid, path, timeout=120):
     except subprocess.TimeoutExpired:
         return False, "replay timeout"
     out = p.stdout + p.stderr
-    return ("REPRODUCED property=" in p.stdout), out
+    # line-anchored: "NOT-REPRODUCED property=" contains "REPRODUCED property=" as a substring
+    ok = any(line.startswith("REPRODUCED property=") for line in p.stdout.splitlines())
+    return ok, out
